@@ -534,7 +534,7 @@ def run(ctx):
         Xa = np.array([rng.randrange(0, 3) for _ in range(T)] + [0, 1, 2, 0]); Xb = np.array([rng.randrange(0, 3) for _ in range(T)] + [2, 1, 0, 2])
         alias_probe(ctx, "estimate_mc", "same length, other sequence in between", lambda o: estimate_mc(Xa), others=[lambda o: estimate_mc(Xb)], guards=[lambda o: Xa], inp={"X": Xa.tolist()})
         X2a = np.array([[rng.randrange(0, 2), rng.randrange(0, 2)] for _ in range(T)] + [[0, 0], [1, 1], [0, 0]], dtype=float)
-        alias_probe(ctx, "estimate_mc", "2-d", lambda o: estimate_mc(X2a), others=[lambda o: estimate_mc(X2a[::-1].copy())], guards=[lambda o: X2a], inp={"X": X2a.tolist()})
+        alias_probe(ctx, "estimate_mc", "2-d", lambda o: estimate_mc(X2a), others=[lambda o: estimate_mc(np.concatenate([X2a[:T][::-1], X2a[T:]]))], guards=[lambda o: X2a], inp={"X": X2a.tolist()})
         g = (np.array([0.0, 1.0, 2.0]), np.array([-1.0, 1.0]))
         Xf = np.array([[rng.randrange(-2, 7) / 2.0, rng.randrange(-4, 5) / 2.0] for _ in range(T)]); Xf[-1] = Xf[0]
         Xg = np.array([[rng.randrange(-2, 7) / 2.0, rng.randrange(-4, 5) / 2.0] for _ in range(T)]); Xg[-1] = Xg[0]
